@@ -276,3 +276,5 @@ def check(ctx):
     shared.thread_park_token_rules(ctx)
     shared.blocker_wiring_rules(ctx)
     shared.atomic_option_rules(ctx)
+    ctx.import_rules("C08", r"^encode/|^decode/")
+    ctx.import_rules("C15", r"^consume-after:")
